@@ -254,9 +254,9 @@ def _table(ctx, report, facts, config, rule, b, label, strict):
         for (ct, cv, cn, cs) in e.path.conds:
             if Q.is_call(ev, ct, "check_intersection") and Q.callee_of(ev, ct).key == A.F_CHECK_INTERSECTION:
                 # an operand may be a chain of several lists: the test then covers every pair of leaves
-                for la in Q.leaves(ev, ct[2][0]):
-                    for lb in Q.leaves(ev, ct[2][1]):
-                        pair = frozenset([roles.get(Q.strip(ev, la), "?"), roles.get(Q.strip(ev, lb), "?")])
+                for la in Q.leaves(ev, ct[2][0], order_free=True):
+                    for lb in Q.leaves(ev, ct[2][1], order_free=True):
+                        pair = frozenset([roles.get(Q.strip(ev, la, extra=("rev",)), "?"), roles.get(Q.strip(ev, lb, extra=("rev",)), "?")])
                         conds.append((pair, cv))
                         seen_pairs.add(pair)
                 n_checks.add(ct)
